@@ -471,6 +471,214 @@ pub fn c05(big: bool) -> BoxedStrategy<Case> {
         .boxed()
 }
 
+pub fn c12(big: bool) -> BoxedStrategy<Case> {
+    let max_ops = if big { 16 } else { 10 };
+    let mb = prop_oneof![5 => (0u8..=4).prop_map(Mailbox::Bounded), 1 => Just(Mailbox::Unbounded)];
+    let spawn = (mb, any::<bool>()).prop_map(|(mailbox, owning)| SpawnSpec::Build { mailbox, strategy: RStrat::Default, timeout: None, fail_on_timeout: false, owning });
+    let base = OpWeights { send: 55, call: 12, ping: 6, convert: 8, yield_: 5, sleep: 4, give: 1, drop: 0, stop: 2, try_stop: 1, max_sleep: 6, ..MSG_WEIGHTS };
+    let timers = prop_oneof![
+        3 => Just(vec![]),
+        2 => vec((prop_oneof![Just(TimerKind::Interval), Just(TimerKind::IntervalWith)], 1u32..=8).prop_map(|(kind, ticks)| Step::AddTimer(TimerSpec { kind, ticks, work: vec![] })), 1..=2),
+    ];
+    (spawn, timers, 1usize..=4)
+        .prop_flat_map(move |(spawn, started, n)| {
+            let owning = spawn.owning();
+            let g = vec(vec(prop_oneof![4 => Just(HKind::Addr), 3 => Just(HKind::Sender), 2 => Just(HKind::WeakSender), 1 => Just(HKind::Caller), 1 => Just(HKind::WeakAddr)], 1..=3), n);
+            (Just(spawn), Just(started), g, Just(owning), clients(n..=n, 3..=max_ops, base), schedule(if big { 96 } else { 48 }))
+        })
+        .prop_map(|(spawn, started, per, owning, clients, schedule)| {
+            let mut grants = vec![];
+            if owning {
+                grants.push(Grant { client: 0, actor: 0, kind: HKind::Owning });
+            }
+            grants.push(Grant { client: 0, actor: 0, kind: HKind::Addr });
+            for (c, kinds) in per.into_iter().enumerate() {
+                for kind in kinds {
+                    grants.push(Grant { client: c, actor: 0, kind });
+                }
+            }
+            finalize(Case {
+                family: Family::C12,
+                actors: one_actor(spawn, Behavior { started, ..Default::default() }),
+                default_beh: vec![],
+                grants,
+                clients,
+                faults: vec![],
+                schedule,
+                settle: 0,
+            })
+        })
+        .boxed()
+}
+
+pub fn c07(big: bool) -> BoxedStrategy<Case> {
+    let max_ops = if big { 14 } else { 9 };
+    let strat = prop_oneof![3 => Just(RStrat::Default), 3 => Just(RStrat::Recreate), 1 => Just(RStrat::NonRestartable)];
+    let spawn = prop_oneof![
+        1 => Just(SpawnSpec::Spawn),
+        6 => (mailbox(), strat, any::<bool>()).prop_map(|(mailbox, strategy, owning)| SpawnSpec::Build { mailbox, strategy, timeout: None, fail_on_timeout: false, owning }),
+    ];
+    let start_fail = prop_oneof![8 => Just(None), 1 => (1u32..3).prop_map(|i| Some((i, FailHow::Err)))];
+    let base = OpWeights { restart: 14, stop: 1, await_: 2, join: 1, drop: 0, max_sleep: 4, send: 28, call: 26, ping: 4, convert: 6, ..MSG_WEIGHTS };
+    let timer_in_handler = (light_timer(), h(), any::<bool>()).prop_map(|(t, h, call)| {
+        let work = vec![Step::AddTimer(t)];
+        if call { ClientOp::Call { h, work } } else { ClientOp::Send { h, work } }
+    });
+    let op = mixed_ops(base, vec![(10, msg_op(1, 1, ctx_work(3, 0, 4))), (5, timer_in_handler.boxed())]);
+    (spawn, start_fail, started_with_timers(2), 1usize..=3)
+        .prop_flat_map(move |(spawn, start_fail, started, n)| {
+            let owning = spawn.owning();
+            (Just(spawn), Just(start_fail), Just(started), grants(n, owning, 1), vec(vec(op.clone(), 3..=max_ops), n..=n), schedule(if big { 96 } else { 48 }))
+        })
+        .prop_map(|(spawn, start_fail, started, grants, clients, schedule)| {
+            let beh = Behavior { started, start_fail, ..Default::default() };
+            finalize(Case {
+                family: Family::C07,
+                actors: one_actor(spawn, beh.clone()),
+                default_beh: vec![beh],
+                grants,
+                clients,
+                faults: vec![],
+                schedule,
+                settle: 0,
+            })
+        })
+        .boxed()
+}
+
+fn any_timer(max_ticks: u32) -> BoxedStrategy<TimerSpec> {
+    (
+        prop_oneof![3 => Just(TimerKind::Interval), 3 => Just(TimerKind::IntervalWith), 2 => Just(TimerKind::DelayedSend), 2 => Just(TimerKind::DelayedExec)],
+        1u32..=max_ticks,
+        // tick handlers: mostly instantaneous, sometimes slow - but always faster than the period,
+        // so that the actor is not overloaded by its own timer (an ever growing backlog is a user
+        // error, not a library matter); slow *messages* (up to 3 periods) come from the clients
+        prop_oneof![5 => Just(0u32), 1 => Just(u32::MAX), 1 => 1u32..=100],
+    )
+        .prop_map(|(kind, ticks, w)| {
+            let work = match w {
+                0 => vec![],
+                u32::MAX => vec![Step::Yield],
+                x => {
+                    let d = (x * ticks / 101).min(ticks.saturating_sub(1));
+                    if d == 0 { vec![Step::Yield] } else { vec![Step::Sleep(d)] }
+                }
+            };
+            TimerSpec { kind, ticks, work }
+        })
+        .boxed()
+}
+
+pub fn c10(big: bool) -> BoxedStrategy<Case> {
+    let max_ops = if big { 12 } else { 7 };
+    let spawn = plain_spawn(false);
+    // mostly waiting clients: the actor is idle except for its timers
+    let base = OpWeights { send: 6, call: 6, ping: 2, convert: 2, yield_: 4, sleep: 60, give: 0, drop: 6, stop: 5, halt: 2, try_stop: 2, max_sleep: 40, ..MSG_WEIGHTS };
+    let timer_in_handler = (any_timer(50), h()).prop_map(|(t, h)| ClientOp::Call { h, work: vec![Step::AddTimer(t)] });
+    let op = mixed_ops(base, vec![(8, timer_in_handler.boxed())]);
+    (spawn, vec(any_timer(50).prop_map(Step::AddTimer), 0..=4), 1usize..=2)
+        .prop_flat_map(move |(spawn, started, n)| {
+            let owning = spawn.owning();
+            (Just(spawn), Just(started), grants(n, owning, 1), vec(vec(op.clone(), 1..=max_ops), n..=n), schedule(32))
+        })
+        .prop_map(|(spawn, started, grants, clients, schedule)| {
+            let mut c = Case {
+                family: Family::C10,
+                actors: one_actor(spawn, Behavior { started, ..Default::default() }),
+                default_beh: vec![],
+                grants,
+                clients,
+                faults: vec![],
+                schedule,
+                settle: 0,
+            };
+            // at most one repeating timer with a slow handler (load < 1): the actor must be able
+            // to keep up with its own timers
+            let mut slow_seen = false;
+            let mut fix = |t: &mut TimerSpec| {
+                if t.work.iter().any(|s| matches!(s, Step::Sleep(_))) {
+                    if slow_seen {
+                        t.work.clear();
+                    }
+                    slow_seen = true;
+                }
+            };
+            for s in &mut c.actors[0].beh.started {
+                if let Step::AddTimer(t) = s {
+                    fix(t);
+                }
+            }
+            for cl in &mut c.clients {
+                for op in cl.iter_mut() {
+                    if let ClientOp::Call { work, .. } | ClientOp::Send { work, .. } = op {
+                        for s in work.iter_mut() {
+                            if let Step::AddTimer(t) = s {
+                                fix(t);
+                            }
+                        }
+                    }
+                }
+            }
+            finalize(c)
+        })
+        .boxed()
+}
+
+pub fn c11(big: bool) -> BoxedStrategy<Case> {
+    let max_ops = if big { 12 } else { 8 };
+    (proptest::option::weighted(0.85, 1u32..=100), any::<bool>(), mailbox(), any::<bool>(), 1usize..=3)
+        .prop_flat_map(move |(timeout, fail, mb, owning, n)| {
+            let t = timeout.unwrap_or(20);
+            // durations around the limit: t-1, t+1, << t, >> t, split into 1-3 sleeps
+            let dur = prop_oneof![
+                3 => Just(t.saturating_sub(1)),
+                3 => Just(t + 1),
+                3 => 0..=t / 2,
+                2 => (t + 2)..=(3 * t + 5),
+                1 => Just(0u32),
+            ];
+            let work = (dur, 1usize..=3, any::<bool>()).prop_map(|(d, parts, y)| {
+                let mut w = vec![];
+                let mut left = d;
+                for p in 0..parts {
+                    let x = if p + 1 == parts { left } else { left / 2 };
+                    left -= x;
+                    w.push(Step::Sleep(x));
+                    if y {
+                        w.push(Step::Yield);
+                    }
+                }
+                w
+            });
+            let op = prop_oneof![
+                5 => (h(), work.clone()).prop_map(|(h, work)| ClientOp::Call { h, work }),
+                4 => (h(), work).prop_map(|(h, work)| ClientOp::Send { h, work }),
+                1 => h().prop_map(|h| ClientOp::Ping { h }),
+                1 => Just(ClientOp::Yield),
+                1 => (0..=t).prop_map(ClientOp::Sleep),
+                1 => h().prop_map(|h| ClientOp::AwaitClone { h }),
+                1 => h().prop_map(|h| ClientOp::Join { h }),
+            ];
+            (Just((timeout, fail, mb, owning)), grants(n, owning, 1), vec(vec(op, 2..=max_ops), n..=n), schedule(32))
+        })
+        .prop_map(|((timeout, fail_on_timeout, mailbox, owning), grants, clients, schedule)| {
+            let spawn = SpawnSpec::Build { mailbox, strategy: RStrat::Default, timeout, fail_on_timeout: fail_on_timeout && timeout.is_some(), owning };
+            let mut c = Case {
+                family: Family::C11,
+                actors: one_actor(spawn, Behavior::default()),
+                default_beh: vec![],
+                grants,
+                clients,
+                faults: vec![],
+                schedule,
+                settle: 0,
+            };
+            avoid_exact_timeout(&mut c);
+            finalize(c)
+        })
+        .boxed()
+}
+
 pub fn strategy(family: Family, big: bool) -> BoxedStrategy<Case> {
     match family {
         Family::C01 => c01(big),
@@ -478,6 +686,10 @@ pub fn strategy(family: Family, big: bool) -> BoxedStrategy<Case> {
         Family::C03 => c03(big),
         Family::C04 => c04(big),
         Family::C05 => c05(big),
+        Family::C07 => c07(big),
+        Family::C10 => c10(big),
+        Family::C11 => c11(big),
+        Family::C12 => c12(big),
         _ => c01(big),
     }
 }
